@@ -127,6 +127,7 @@ reg("C13", ["c13_lenp.c"],
                 "thorough": "all fragmentations of two-frame streams of total length <= 12"})
 
 reg("C20", ["c20_sx.c"],
+    fuzz={"target": "fuzz/fz_sx.c", "runs": {"quick": 480000, "thorough": 48000000}, "max_len": 300},
     rule="'trees': every tree with <= 6 nodes and depth <= 4 over symbols {a, foo-1, +} and integers {0, 7, 255, "
          "48879} (unranked from a counting recurrence; every 23rd tree from a seeded offset in quick, all in "
          "thorough), rendered with three whitespace policies and decimal / #x lower / #x upper / mixed number "
